@@ -312,6 +312,19 @@ impl Corpus {
         // the same class twice in one module
         t.push_str(&format!("\nclass Enum{i} {{ function again(): int = 0 }}\n"));
       }
+      if rng.chance(1, 2) {
+        // non-exhaustive matches in which every constructor of a column is mentioned and several
+        // constructors of the same arity each leave a gap further down or further right: which
+        // counter-example is shown depends on the order in which the constructors are tried
+        let vs = pick_names(rng, 3, ULONG, USHORT);
+        let inner = pick_names(rng, 2, &["InnerVariantWithALongNameOne", "InnerVariantWithALongNameTwo"], &["Nothing", "Just"]);
+        t.push_str(&format!(
+          "\nclass Inner{i}({}, {}(int)) {{}}\nclass Gaps{i}({}(Inner{i}), {}(Inner{i}), {}) {{\n  method nested(): int = match this {{ {}({}(r)) -> r, {}({}(w)) -> w, {} -> 0 }}\n  function pairs(a: Gaps{i}, b: Gaps{i}): int = match (a, b) {{ ({}(_), {}(_)) -> 1, ({}(_), {}(_)) -> 2, ({}, {}) -> 3 }}\n}}\n",
+          inner[0], inner[1], vs[0], vs[1], vs[2],
+          vs[0], inner[1], vs[1], inner[1], vs[2],
+          vs[0], vs[0], vs[1], vs[1], vs[2], vs[2],
+        ));
+      }
       if rng.chance(1, 3) {
         // two interfaces with the same member, one class implementing both and neither
         t.push_str(&format!("\ninterface Left{i} {{ method shared(): int }}\ninterface Right{i} {{ method shared(): Str }}\nclass Both{i} : Left{i}, Right{i} {{ }}\n"));
